@@ -128,19 +128,27 @@ def stepClock (st : DSt) (t : String) : DSt × Option String :=
   | some t => ({ st with t := max st.t (t * nsPerMs) }, none)
   | none => (st, some "bad-op")
 
+def showOut : Out → Option String
+  | .silent => none
+  | .loaded n => some s!"ok {n}"
+  | .dec d w => some (if w > 0 then s!"{showD d} +{w}" else showD d)
+
+/-- `clock` / `load` / `entry` go through `stepOp`, the function `Sentinel.C02.runG_eq_ref` is about -/
+def modelOp (st : DSt) (o : Op) : DSt × Option String :=
+  let x := stepOp { s := st.s, t := st.t, nrules := st.nrules } o
+  ({ st with s := x.1.s, t := x.1.t, nrules := x.1.nrules }, showOut x.2)
+
 def stepModel (st : DSt) (ts : List String) : DSt × Option String :=
   match ts with
-  | ["clock", t] => stepClock st t
+  | ["clock", t] => match t.toNat? with
+      | some t => modelOp st (.clock t)
+      | none => (st, some "bad-op")
   | "load" :: n :: rs => match n.toNat?, parseRules rs with
       | some n, some rules =>
-        if n ≠ rules.length then (st, some "bad-op") else
-        let s := reloadG st.s rules st.now st.nrules
-        ({ st with s := s, nrules := st.nrules + rules.length, loads := st.loads + 1 }, some s!"ok {s.ctrls.length}")
+        if n ≠ rules.length then (st, some "bad-op") else modelOp { st with loads := st.loads + 1 } (.load rules)
       | _, _ => (st, some "bad-op")
   | ["entry", res, b] => match res.toNat?, b.toNat? with
-      | some res, some b =>
-        let x := entryG st.s res st.t b
-        ({ st with s := x.1, t := x.2.1 }, some (withSleep (showD x.2.2) st.t x.2.1))
+      | some res, some b => modelOp st (.entry res b)
       | _, _ => (st, some "bad-op")
   | ["par", res, bs, sched] => match res.toNat?, parseNats bs, parseNats sched with
       | some res, some bs, some sched =>
@@ -162,7 +170,7 @@ def stepSpec (st : DSt) (ts : List String) : DSt × Option String :=
   | "load" :: n :: rs => match n.toNat?, parseRules rs with
       | some n, some rules =>
         if n ≠ rules.length then (st, some "bad-op") else
-        let r := refReloadG st.r rules st.nrules
+        let r := (refStepOp RuleInfo.feed { r := st.r, t := st.t, nrules := st.nrules } (.load rules)).1.r
         -- nodes are created by `generateStatFor`, i.e. only for reject rules that get a brand-new statistic
         -- (a superset is harmless here: the node of a resource that already has one is kept)
         let seen := (rules.filter fun x => x.valid && x.kind == .reject).foldl (fun l x => addSeen l x.src) st.seen
@@ -171,7 +179,9 @@ def stepSpec (st : DSt) (ts : List String) : DSt × Option String :=
       | _, _ => (st, some "bad-op")
   | ["entry", res, b] => match res.toNat?, b.toNat? with
       | some res, some b =>
-        let asis := refEntryG RuleInfo.feed st.r res st.t b
+        -- the as-is reference step is `refStepOp`, the function `Sentinel.C02.runG_eq_ref` is about
+        let asis' := refStepOp RuleInfo.feed { r := st.r, t := st.t, nrules := st.nrules } (.entry res b)
+        let asis : RSt × Nat × Option Nat := (asis'.1.r, asis'.1.t, none)
         let claim := refEntryG srcDemanded st.r res st.t b
         let st' := { st with r := asis.1, t := asis.2.1, seen := addSeen st.seen res }
         if !st.mono || st.now = 0 then (st', some "?")
